@@ -18,6 +18,9 @@ from . import net
 FILETIME_EPOCH = 116444736000000000
 
 
+CURRENT: t.Optional["World"] = None  # the world whose seams are installed right now
+
+
 class SimClock:
     """Virtual wall clock in ns since 1970 (settable, jumpable)."""
 
@@ -260,6 +263,9 @@ class World:
         import dns.resolver
 
         saved = []
+        global CURRENT
+        prev_current = CURRENT
+        CURRENT = self  # (seams that are not handed the world - a stub security context - find it here)
 
         def patch(obj, name, val):
             saved.append((obj, name, getattr(obj, name)))
@@ -380,6 +386,7 @@ class World:
         finally:
             for obj, name, val in reversed(saved):
                 setattr(obj, name, val)
+            CURRENT = prev_current
 
 
 class NeedsNetwork(Exception):
